@@ -50,6 +50,13 @@ func NewHTTPHandler(to *url.URL, reverseProxy *httputil.ReverseProxy, headerInje
 
 func (f *HTTPHandler) rewriteFunc(r *httputil.ProxyRequest) {
 	r.SetURL(f.To)
+	// ReverseProxy re-encodes the whole query, dropping parameters it cannot parse
+	// (e.g. "a;b"), before Rewrite is called; forward the client's query as sent.
+	if tq, iq := f.To.RawQuery, r.In.URL.RawQuery; tq == "" || iq == "" {
+		r.Out.URL.RawQuery = tq + iq
+	} else {
+		r.Out.URL.RawQuery = tq + "&" + iq
+	}
 	r.Out.Header["X-Forwarded-For"] = r.In.Header["X-Forwarded-For"]
 	r.SetXForwarded()
 
